@@ -526,6 +526,11 @@ def times_check(prop, tier):
                 th = rnd.choice([1, 2, 3, 4, 8, 16])
                 rounds.append({"id": len(rounds) + 1, "n": n, "k_match": k, "k_nomatch": rnd.choice([0, 0, 1, 3]),
                                "threads": th, "site": len(rounds) % 24})
+    # tight-loop bursts: thousands of calls racing on the counter with no logging in between
+    for n, extra in ([(2000, 500), (5000, 0), (3000, 3000)] if tier == "quick" else [(2000, 500), (5000, 0), (3000, 3000), (20000, 1), (1, 20000), (50000, 50000)]):
+        for rep in range(4 if tier == "quick" else 25):
+            rounds.append({"id": len(rounds) + 1, "n": n, "k_match": n + extra, "k_nomatch": rnd.choice([0, 7]), "threads": 16,
+                           "site": len(rounds) % 24, "burst": True})
     tgroups, torder, _ = vlib.run_harness("times", rounds, "times_C06", timeout=3000)
     tv2 = tlc.validate_traces("Trace_Times", "Trace_Times", [(r["id"], tgroups.get(r["id"], [])) for r in rounds], WORK,
                               "trace_times", timeout=3000)
@@ -651,8 +656,204 @@ def lock_check(prop, tier):
     return run.finish()
 
 
+# =============================================================== simulated architectures (C15, C16)
+
+def _chunks(cases, n):
+    return [cases[i:i + n] for i in range(0, len(cases), n)]
+
+
+def a64_cases(tier):
+    rnd = vlib.rnd("a64")
+    q = tier == "quick"
+    cases = []
+    R = 0x8000000
+
+    def add(isa, src, tramp, fake, kind="jump", v=0):
+        cases.append({"isa": isa, "kind": kind, "src": src & (2**64 - 1), "tramp": tramp & (2**64 - 1), "fake": fake & (2**64 - 1), "v": v})
+    # (a) every 16-bit chunk value of the fake address in every position
+    step = 64 if q else 1
+    for pos in range(4):
+        for val in range(rnd.randrange(step) if step > 1 else 0, 65536, step):
+            fake = rnd.getrandbits(64) & ~(0xFFFF << (16 * pos)) | (val << (16 * pos))
+            src = 0x0000555500001000 + 4 * rnd.randrange(0, 1 << 20)
+            add("a64-linux", src, (src & ~0xfff) + 0x3000, fake)
+    for fake in (0, 1, 2**64 - 1, 2**63, 0xFFFF, 0xFFFF0000, 0xFFFF00000000, 0xFFFF000000000000, 0x0001000100010001):
+        add("a64-linux", 0x400000, 0x500000, fake)
+        add("a64-macos", 0x100004000, 0x100104000, fake)
+    # (b) entry displacements: around both edges of +/-128 MiB, each half of imm26, beyond range
+    src0 = 0x0000007f80000000
+    for d in list(range(-R - 256, -R + 260, 4)) + list(range(R - 256, R + 260, 4)):
+        add("a64-linux", src0, src0 + d, 0x1122334455667788)
+        add("a64-linux", src0 + 4, src0 + 4 + d, 0x1122334455667788)
+    st = 32 if q else 1
+    for lo in range(1, 8192, st):
+        add("a64-linux", src0, src0 + 4 * lo + (1 << 20), 0xCAFE0000BEEF)      # + 1 MiB: entry and trampoline never overlap
+        add("a64-linux", src0, src0 - 4 * lo - (1 << 20), 0xCAFE0000BEEF)
+    for hi in range(1, 4096, st):          # upper 13 bits of a 26-bit word offset (positive half), and negative
+        add("a64-linux", src0, src0 + 4 * (hi << 13), 0xCAFE0000BEEF)
+        add("a64-linux", src0, src0 - 4 * (hi << 13) - 4, 0xCAFE0000BEEF)
+    for d in (R + 4096, -(R + 4096), 1 << 30, -(1 << 30), (1 << 32) - 4, -(1 << 32), 1 << 27, 1 << 28, (1 << 29) - 4, 1 << 29):
+        add("a64-linux", src0, src0 + d, 0xCAFE0000BEEF)
+    # (c) macOS long form: low 12 bits exhaustively, each half of the 21-bit page delta, pc page offsets, +/-2 GiB edges
+    msrc = 0x0000000180000000
+    for low in range(0, 4096, 8 if q else 1):
+        add("a64-macos", msrc + 4 * rnd.randrange(0, 1024), (msrc + (1 << 29)) & ~0xfff | low & ~3, 0xA1B2C3D4E5F6)
+    for pd in range(0, 2048, 16 if q else 1):
+        add("a64-macos", msrc, msrc + (pd << 12) + 0x40, 0xA1B2C3D4E5F6)
+        add("a64-macos", msrc, msrc - (pd << 12) + 0x40, 0xA1B2C3D4E5F6)
+        add("a64-macos", msrc, msrc + ((pd << 11) << 12) % (1 << 31) + 0x80, 0xA1B2C3D4E5F6)
+        add("a64-macos", msrc, msrc - (((pd << 11) << 12) % (1 << 31)) + 0x80, 0xA1B2C3D4E5F6)
+    for off in (0, 4, 0xffc, 0x800):
+        for d in (R - 4, R, R + 4, -R, -R - 4, (1 << 31) - 4096, -(1 << 31), (1 << 31) - 4, 1 << 28):
+            add("a64-macos", msrc + off, msrc + off + d, 0xA1B2C3D4E5F6)
+    for d in list(range(-R - 64, -R + 68, 4)) + list(range(R - 64, R + 68, 4)):
+        add("a64-macos", msrc + 8, msrc + 8 + d, 0x77)
+    # (d) forced boolean
+    for isa, s0 in (("a64-linux", src0), ("a64-macos", msrc)):
+        for v in (0, 1):
+            for d in (0x4000, -0x4000, R - 4096):
+                add(isa, s0, s0 + d, 0, kind="bool", v=v)
+    n_rand = 300 if q else 20000
+    for _ in range(n_rand):
+        isa = rnd.choice(["a64-linux", "a64-macos"])
+        src = rnd.randrange(1 << 16, 1 << 47) & ~3
+        span = R if isa == "a64-linux" else (1 << 31)
+        add(isa, src, (src + rnd.randrange(-span, span)) & ~3, rnd.getrandbits(64))
+    return cases
+
+
+def arm_cases(tier):
+    rnd = vlib.rnd("arm")
+    q = tier == "quick"
+    cases = []
+
+    def add(isa, src, fake, kind="jump", v=0):
+        cases.append({"isa": isa, "kind": kind, "src": src & 0xFFFFFFFF, "tramp": 0, "fake": fake & 0xFFFFFFFF, "v": v})
+    step = 128 if q else 1
+    for isa, align in (("a32", 0), ("t32", 1), ("t32", 3)):     # A32; T32 at 0 mod 4 (+1 Thumb bit); T32 at 2 mod 4
+        for thumb_fake in (0, 1):
+            for half in (0, 1):
+                for val in range(rnd.randrange(step) if step > 1 else 0, 65536, step):
+                    src = (rnd.getrandbits(32) & ~(0xFFFF << (16 * half)) | (val << (16 * half))) & ~3 | align
+                    fake = rnd.getrandbits(32) & ~1 | thumb_fake
+                    if src < 64:
+                        src += 64
+                    add(isa, src, fake)
+                    fk = (rnd.getrandbits(32) & ~(0xFFFF << (16 * half)) | (val << (16 * half))) & ~1 | thumb_fake
+                    add(isa, (rnd.getrandbits(32) & ~3 | align) or (64 | align), fk)
+            for fake in (2, 3, 0xFFFFFFFE, 0xFFFFFFFF, 0x80000000, 0x80000001, 0x10000, 0x10001):
+                add(isa, 0x8000 | align, fake & ~1 | thumb_fake)
+        for v in (0, 1):
+            add(isa, 0x20000 | align, 0, kind="bool", v=v)
+    return cases
+
+
+def sim_validate(run, prop, cases, chunk, key_fn, extra_props=()):
+    """run the cases through the simulated emitters and validate the Sim events with TLC"""
+    scen = [{"id": i, "cases": c} for i, c in enumerate(_chunks(cases, chunk), 1)]
+    groups, order, _ = vlib.run_harness("sim", scen, "sim_" + prop, timeout=3000)
+    props = '{%s}' % ", ".join('"%s"' % p for p in (prop,) + tuple(extra_props) + ("ALL",))
+    cfgp = tlc.make_cfg("Trace_Sim", {"Props": props}, "Trace_Sim_" + prop)
+    # parallel TLC processes over slices of the scenarios
+    import concurrent.futures
+    nproc = 4 if len(scen) < 40 else 10
+    slices = [scen[i::nproc] for i in range(nproc)]
+    results = []
+
+    def one(k):
+        sl = slices[k]
+        return tlc.validate_traces("Trace_Sim", cfgp, [(sc["id"], groups.get(sc["id"], [])) for sc in sl], WORK,
+                                   "trace_sim_%s_%d" % (prop, k), timeout=3000)
+    with concurrent.futures.ThreadPoolExecutor(max_workers=nproc) as ex:
+        results = list(ex.map(one, range(nproc)))
+    nev = 0
+    unknown = 0
+    for tv in results:
+        run.states += tv["states"]
+        run.transitions += tv["transitions"]
+        unknown += sum(1 for l in tv.get("raw", {}).get("prints", []) if l.startswith('<<"UNKNOWN"'))
+        for sid in tv["ids"]:
+            evs = groups.get(sid, [])
+            reached, total = tv["progress"][sid]
+            nev += reached
+            run.traces += reached
+            if sid not in tv["accepted"]:
+                fe = evs[reached] if reached < len(evs) else None
+                run.violation(key_fn(fe), {"first_unmatched_event": fe, "scenario_id": sid, "case_index": reached + 1,
+                                           "note": "the remaining cases of this chunk were not examined; rerun after repair"})
+    return groups, nev, unknown
+
+
+def a64_check(prop, tier):
+    run = Run(prop, tier)
+    run.rule = ("cases = fake address with each 16-bit chunk swept in each position; entry displacements around +/-128 MiB (both sides, "
+                "word by word), both halves of imm26, beyond range to +/-4 GiB; macOS long form: low 12 bits, both halves of the page "
+                "delta, pc page offsets, +/-2 GiB edges; forced boolean; seeded random. The repository's arm64 sources are compiled on "
+                "the host against a simulated memory; TLC decodes and executes the emitted bytes on A64.tla. distinct = distinct "
+                "(isa, src, tramp, fake) tuples")
+    run.assumptions = ["A64.tla transcribes B/NOP/MOVZ/MOVK/BR/RET/ADRP/ADD(imm) from the Arm ARM; cross-read by llvm-mc in selftest",
+                       "three textual substitutions make the sources compile on x86-64 (build.rs)", "no AArch64 CPU executes the bytes here"]
+    r = tlc.check("MC_Alloc", tlc.make_cfg("MC_Alloc_q", {"Branch": '"a64"', "AcceptTest": '"a64safe"'}, "MC_Alloc_a64"), workers=TLC_WORKERS, timeout=3000)
+    run.add_model(r)
+    if r["violation"]:
+        run.design_violation(r)
+    vlib.build_harness()
+    cases = a64_cases(tier)
+    for c in cases:
+        run.note_case("%s %x %x %x %s" % (c["isa"], c["src"], c["tramp"], c["fake"], c["kind"]))
+
+    def key(fe):
+        if fe is None:
+            return "C15 harness-died"
+        d = int.from_bytes(bytes(fe["tramp"]), "little") - int.from_bytes(bytes(fe["src"]), "little")
+        return "C15 isa=%s kind=%s outcome=%s d=%+#x" % (fe["isa"], fe["kind"], fe["outcome"], d)
+    groups, nev, unknown = sim_validate(run, prop, cases, 400, key)
+    run.extra["sim_cases"] = {"cases": len(cases), "validated": nev, "unknown_instruction_words": unknown}
+    ev0 = groups.get(1, [{}])[0]
+    run.sample({k: ev0.get(k) for k in ("isa", "kind", "src", "tramp", "fake", "entry", "trampb", "outcome")})
+    return run.finish()
+
+
+def arm_check(prop, tier):
+    run = Run(prop, tier)
+    run.rule = ("cases = three entry cases (A32; T32 at 0 mod 4; T32 at 2 mod 4) x fake in ARM/Thumb state x each 16-bit half of the target "
+                "and of the fake address swept + edge values + boolean path; patch_arm.rs compiled on the host against a simulated memory; "
+                "TLC executes the 12 bytes on A32T32.tla (PC+8 / Align(PC+4,4) literal addressing, BX interworking)")
+    run.assumptions = ["A32T32.tla transcribes LDR(literal) A1/T1/T2, BX, NOP from the Arm ARM", "r9 counted as callee-saved (AAPCS on Linux)"]
+    vlib.build_harness()
+    cases = arm_cases(tier)
+    for c in cases:
+        run.note_case("%s %x %x %s" % (c["isa"], c["src"], c["fake"], c["kind"]))
+
+    def key(fe):
+        if fe is None:
+            return "C16 harness-died"
+        e = fe["entry"]
+        # which register does the sequence load? (only used to name the finding)
+        if fe["isa"] == "a32":
+            reg = "r%d" % (e[1] >> 4)
+            rule = "callee-saved-written" if (e[1] >> 4) in (4, 5, 6, 7, 8, 9, 10, 11, 13) else "other"
+        else:
+            h = e[0] | e[1] << 8
+            if h in (0x46C0, 0xBF00):
+                h = e[2] | e[3] << 8
+            if h >> 11 == 9:
+                reg = "r%d" % ((h >> 8) & 7)
+                rule = "callee-saved-written" if ((h >> 8) & 7) >= 4 else "other"
+            else:
+                reg, rule = "?", "other"
+        return "C16 isa=%s rule=%s reg=%s" % ("A32" if fe["isa"] == "a32" else "T32", rule, reg)
+    groups, nev, unknown = sim_validate(run, prop, cases, 300, key)
+    run.extra["sim_cases"] = {"cases": len(cases), "validated": nev, "unknown_instruction_words": unknown}
+    ev0 = groups.get(1, [{}])[0]
+    run.sample({k: ev0.get(k) for k in ("isa", "kind", "src", "fake", "entry", "outcome", "guard")})
+    return run.finish()
+
+
 CHECKS = {
     "C01": placement_check,
+    "C15": a64_check,
+    "C16": arm_check,
     "C04": lock_check,
     "C06": times_check,
     "C11": alloc_check,
